@@ -5,6 +5,7 @@ import NA.Proofs.IosConv
 -/
 namespace NA.F2
 open NA.Acl (Range Cell)
+open NA.F1 (lookupD)
 
 /-- `nolog` and `act` are functions of `text` (they are computed from it). -/
 def textFunB (ls : List ALine) : Bool :=
@@ -43,5 +44,24 @@ def replaceOK (al bl : List ALine) (rs : List Range) : Bool :=
 
 /-- One of the two. -/
 def pairOK (al bl : List ALine) (rs : List Range) : Bool := incrOK al bl rs || replaceOK al bl rs
+
+
+/-- Directions are `in` or `out`. -/
+def isDir (dir : String) : Bool := dir == "in" || dir == "out"
+
+/-- The static hypotheses of the end-to-end theorem `ios_F2_converges` as one decidable check:
+names of access lists and interfaces pairwise different, at most one `in` and one `out` binding per
+interface, every binding refers to a defined access list, every pair of a device ACL and a target
+ACL passes `pairOK`, every target ACL can be transferred, route lines pairwise different per side,
+equal route lines lie in the same VRF. -/
+def wfB (a0 b : Config) (sc : Scripts) : Bool :=
+  decide ((a0.acls.map (·.1)).Nodup) && decide ((a0.intfs.map (·.name)).Nodup) && decide ((b.intfs.map (·.name)).Nodup) &&
+  (a0.intfs.all fun i => decide ((i.binds.map (·.dir)).Nodup) && i.binds.all fun bd => isDir bd.dir && a0.hasAcl bd.acl) &&
+  (b.intfs.all fun i => decide ((i.binds.map (·.dir)).Nodup) && i.binds.all fun bd => isDir bd.dir && b.hasAcl bd.acl) &&
+  ((a0.acls.map (·.1)).all fun aN => (b.acls.map (·.1)).all fun bN =>
+    pairOK (a0.lines aN) (b.lines bN) (lookupD sc.acl (aN, bN))) &&
+  ((b.acls.map (·.1)).all fun bN => appendOKFrom [] (b.lines bN)) &&
+  decide ((a0.routes.map (·.text)).Nodup) && decide ((b.routes.map (·.text)).Nodup) &&
+  (a0.routes.all fun r => b.routes.all fun r' => r.text != r'.text || r.vrf == r'.vrf)
 
 end NA.F2
